@@ -9,6 +9,13 @@ class Interrupt(Exception):
     pass
 
 
+class InterruptBase(BaseException):
+    """An interrupt that does not derive from Exception (as KeyboardInterrupt)."""
+
+
+HANG_S = 8
+
+
 def run(c):
     N, extras, dense = o_aggs.build(c)
     fact, vals, vvalid = o_aggs.fact_of(c)
@@ -24,7 +31,7 @@ def run(c):
             state["calls"] += 1
         hit = (c["subset"][j] if j < K else False) if pooled else (j == c["fault"])
         if hit:
-            raise Interrupt(j)
+            raise (InterruptBase if c.get("exc_base") else Interrupt)(j)
     if c["side"] == "ccube":
         cube = ccube([o_aggs.index_of(a, c["commons"][d]) for d, a in enumerate(dense)], interacting_shape=ish)
         mod, prefix = ffuncs, "ffunc_"
@@ -36,12 +43,27 @@ def run(c):
     cube.parallel = pooled
     cube.check_interrupt = cb
     raised = False
-    try:
-        cube.calculate([f])
-    except Interrupt:
-        raised = True
-    except Exception as ex:
-        return {"violates": True, "exception": "%s: %s" % (type(ex).__name__, ex)}
+    box = {}
+
+    def first():
+        try:
+            cube.calculate([f])
+        except (Interrupt, InterruptBase):
+            box["raised"] = True
+        except BaseException as ex:
+            box["other"] = "%s: %s" % (type(ex).__name__, ex)
+    if c.get("exc_base"):
+        # the call may never return (a pool worker that died): run it aside and give it HANG_S seconds
+        t = threading.Thread(target=first, daemon=True)
+        t.start()
+        t.join(HANG_S)
+        if t.is_alive():
+            return {"violates": True, "hang": "calculate did not return within %d s after the callback raised" % HANG_S}
+    else:
+        first()
+    if "other" in box:
+        return {"violates": True, "exception": box["other"]}
+    raised = bool(box.get("raised"))
     should = any(c["subset"][:K]) if pooled else c["fault"] < K
     want_calls = K if pooled else (c["fault"] + 1 if c["fault"] < K else K)
     if raised != should or state["calls"] != want_calls:
